@@ -13,7 +13,7 @@
    What remains checked by execution only is the tie of M2 to the code (engine E1: contents of EVERY live handle after EVERY step). *)
 From stdpp Require Import gmap.
 From Coq Require Import NArith.
-From BV Require Import Base BufMut Heap Spec SpecLaws HeapWF HeapWFOps HeapWFMain HeapFrame SizeInv RefineM1 RefineCor.
+From BV Require Import Base BufMut Heap Spec SpecLaws HeapWF HeapWFOps HeapWFMain HeapFrame SizeInv RefineM1 RefineCor EntryDef Entry.
 
 Theorem C01_frame : forall cap uniq o s s' r h', sstep cap uniq o s = SOk s' r -> h' ∉ touched o -> (h' < snext s)%positive ->
   vals s' !! h' = vals s !! h'.
@@ -47,6 +47,17 @@ Proof. exact reach_hsz. Qed.
    abstracts to the state M1 reaches *)
 Theorem C01_history_refinement : forall orcs odd ops rs s', (forall i, oracle_sane (orcs i)) -> m2steps orcs 0 (hst0 odd) ops rs s' -> m1steps sst0 ops rs (abs s').
 Proof. exact history_refinement_from_empty. Qed.
+(* 15 further public entry points (copy_from_slice, From<Box<[u8]>>, From<String>, FromIterator for Bytes and BytesMut, From<&str>, Extend<Bytes>, Extend<&u8>,
+   put_slice, put_bytes, write_str, set_len, spare_capacity_mut + set_len, Buf::copy_to_bytes of a BytesMut, put(Bytes)) are defined by the source through
+   operations of the model; EntryDef.expand is that definition.  The two models compute the same expansion on related states, and the operations an entry point
+   stands for refine the reference model like any other history *)
+Theorem C01_entry_points_expand_alike : forall s x, WF s -> dlen s -> expand (view2 s) x = expand (view1 (abs s)) x.
+Proof. exact expand_agree. Qed.
+Theorem C01_entry_points_refine : forall orcs n s x rs s', (forall i, oracle_sane (orcs i)) -> reach orcs n s ->
+  m2steps orcs n s (expand (view2 s) x) rs s' -> m1steps (abs s) (expand (view1 (abs s)) x) rs (abs s').
+Proof. exact entry_refinement. Qed.
+Example C01_entry_points_nonvacuous : entry_demo = true.
+Proof. exact entry_runs. Qed.
 (* where M1 says the call is out of contract (whatever uniqueness bit), M2 does not return *)
 Corollary C01_contract_violation_does_not_return : forall orcs n s o r s' e', (forall i, oracle_sane (orcs i)) -> reach orcs n s -> op_ok s o ->
   (forall uniq, sstep (cap_of s o) uniq o (abs s) = SPanic) -> run_op (orcs n) o s <> OK r s' e'.
@@ -78,3 +89,6 @@ Print Assumptions C01_size_invariant.
 Print Assumptions C01_contract_violation_does_not_return.
 Print Assumptions C01_refinement_nonvacuous.
 Print Assumptions C01_history_refinement.
+Print Assumptions C01_entry_points_expand_alike.
+Print Assumptions C01_entry_points_refine.
+Print Assumptions C01_entry_points_nonvacuous.
